@@ -376,7 +376,14 @@ func (runInfo *runInfoStruct) invokeMemberExpr(expr *ast.MemberExpr) {
 		return
 	}
 
-	value := runInfo.rv.MethodByName(expr.Name)
+	recv := runInfo.rv
+	if recv.CanAddr() {
+		// a method of the value's own method set is bound to the receiver as it is now, not
+		// to a view of the storage it was read from
+		recv = reflect.New(recv.Type()).Elem()
+		recv.Set(runInfo.rv)
+	}
+	value := recv.MethodByName(expr.Name)
 	if value.IsValid() {
 		runInfo.rv = value
 		return
